@@ -2,10 +2,11 @@
     acyclicity check on it and the rank the check computes.  New definitions only; the
     proofs are in Proofs/SizedRegProofs.v.
 
-    Nodes are the paths of the item entries (struct / enum entries that the generation loop
-    turns into items: not substituted, with a non-empty namespace).  There is an edge
-    [pa -> pb] when some item entry with path [pa] has a field [f] with
-    [is_boxed_gen f = false] (the recorded type name mentions none of [Box<], [Rc<],
+    Nodes are the paths of the item-eligible entries ([item_eligible], Model/Shape.v: struct /
+    enum entries that are not substituted and have a non-empty namespace).  The generation loop
+    builds the item of a path from the FIRST item-eligible entry with that path
+    ([first_eligible]); there is an edge [pa -> pb] when that entry for [pa] has a field [f]
+    with [is_boxed_gen f = false] (the recorded type name mentions none of [Box<], [Rc<],
     [Arc<]) whose type reaches, BY VALUE, a struct / enum entry with path [pb] that is
     printed as an item path (not substituted, at least two segments).
 
@@ -20,17 +21,18 @@
       [T] for [Cow<T>]);
     - tuples, arrays and compact wrappers are traversed;
     - a struct / enum entry is a target when it is printed as an item path; its parameters
-      are traversed when its printed path holds them by value: the prelude entries [Option],
-      [Result], [Range], [RangeInclusive] ([path_transparent], Model/Sized.v) and -
-      conservatively, their layout is unknown - substituted paths;
+      are traversed exactly when [bv_subpaths] (Model/Sized.v) traverses the arguments of
+      the path printed for it ([args_by_value]): the prelude entries [Option], [Result],
+      [Range], [RangeInclusive], and a path substituted (pass-through) by one of these four;
     - the parameters of every other struct / enum entry are cut: the heap prelude
       collections [BTreeMap], [BTreeSet], [BinaryHeap], [VecDeque], [LinkedList], the
-      [NonZero*] entries, and every generated item (its own fields are its own edges);
+      [NonZero*] entries, every other substituted path (its layout is unknown; as in
+      [item_edge]), and every generated item (its own fields are its own edges);
     - sequences ([TDSequence], printed [Vec]) cut; bit sequences and primitives have no
       by-value children. *)
 From Coq Require Import List NArith String Bool.
 From V Require Import Base.Util Base.Strings Base.Result Model.Registry Model.Settings Model.Subst
-  Model.TypePath Model.Derives Model.Generate Model.WellFormed Model.Sized.
+  Model.TypePath Model.Derives Model.Generate Model.WellFormed Model.Shape Model.Sized.
 Import ListNotations.
 Open Scope string_scope. Open Scope list_scope. Open Scope nat_scope.
 
@@ -54,6 +56,22 @@ Section RegGraph.
     | None => match t_path t with _ :: _ :: _ => true | _ => false end
     end.
 
+  (** the arguments printed for a struct / enum entry with path [p] are by-value nodes of the
+      printed path: what [bv_subpaths] does on the result of [type_path_maybe_with_substitutes] *)
+  Definition args_by_value (p : list string) : bool :=
+    match subs_get (s_subs s) p with
+    | Some sub =>
+        match su_map sub with
+        | PassThrough => transparent_toksb (print_spath (su_path sub))
+        | Specified _ => false
+        end
+    | None =>
+        match from_type_def_path p (s_root s) (alloc_tokens (s_alloc s)) with
+        | Ok toks => transparent_toksb toks
+        | _ => false
+        end
+    end.
+
   Fixpoint bv_targets (fuel : nat) (parents : list tparam_ir) (orig : option string) (id : N)
     : list (list string) :=
     match fuel with
@@ -71,7 +89,7 @@ Section RegGraph.
             match t_def t with
             | TDComposite _ | TDVariant _ =>
                 (if item_node t then [t_path t] else []) ++
-                (if path_transparent s (t_path t)
+                (if args_by_value (t_path t)
                  then flat_map (bv_targets fuel' parents None) (param_ids t) else [])
             | TDArray _ e => bv_targets fuel' parents None e
             | TDCompact e => bv_targets fuel' parents None e
@@ -83,13 +101,6 @@ Section RegGraph.
       end
     end.
 
-  (** what the generation loop turns into an item ([eligible], Proofs/GenProofs.v, on a
-      struct / enum entry) *)
-  Definition bv_item_entry (t : ty) : bool :=
-    is_composite_or_variant (t_def t) &&
-    (negb (subs_contains (s_subs s) (t_path t)) &&
-     match namespace (t_path t) with [] => false | _ => true end).
-
   (** the by-value successors of one entry: over its fields that the generator does not box,
       with the fuel and the parent parameters the generator resolves the field with *)
   Definition entry_succs (t : ty) : list (list string) :=
@@ -99,11 +110,17 @@ Section RegGraph.
              (def_fields (t_def t)).
 
   Definition reg_bv_edge (pa pb : list string) : Prop :=
-    exists id t, In (id, t) r /\ bv_item_entry t = true /\ t_path t = pa /\ In pb (entry_succs t).
+    exists id t, first_eligible r s pa = Some (id, t) /\ In pb (entry_succs t).
 
-  (** the same graph as data: one row per item entry (several rows may carry the same path) *)
+  (** the same graph as data: one row per item-eligible entry, carrying the successors of the
+      first item-eligible entry with its path (entries with one path give equal rows) *)
   Definition bv_graph : list (list string * list (list string)) :=
-    flat_map (fun e => if bv_item_entry (snd e) then [(t_path (snd e), entry_succs (snd e))] else []) r.
+    flat_map (fun e => if item_eligible s (snd e)
+                       then match first_eligible r s (t_path (snd e)) with
+                            | Some (_, t) => [(t_path (snd e), entry_succs t)]
+                            | None => []
+                            end
+                       else []) r.
 End RegGraph.
 
 (** ** longest-path rank of a graph given by rows [(node, successors)]
